@@ -1,0 +1,364 @@
+//go:build verif
+
+package math
+
+// Contracts for the deductive verifier in /verif (govc). Comment-only file: it
+// declares nothing, so the build is identical with and without the tag.
+//
+// C18: every activation function has (1) a closed-form definition written here from the
+// documentation, independent of the code, which the code must equal (real arithmetic, exp/tanh/sin
+// uninterpreted); (2) its documented range; (3) for the monotone ones a lemma that the definition
+// is non-decreasing. The "@fp" variants re-verify range and finiteness in IEEE-754 binary64.
+
+// ---- definitions -------------------------------------------------------------------------------
+//@ spec plainSigmoidDef(x real) real = 1.0 / (1.0 + expF(-x))
+//@ spec reducedSigmoidDef(x real) real = 1.0 / (1.0 + expF(-0.5 * x))
+//@ spec steepenedSigmoidDef(x real) real = 1.0 / (1.0 + expF(-4.924273 * x))
+//@ spec bipolarSigmoidDef(x real) real = 2.0 / (1.0 + expF(-4.924273 * x)) - 1.0
+//@ spec approxSigmoidDef(x real) real = x < -4.0 ? 0.0 : (x < 0.0 ? (x + 4.0) * (x + 4.0) * 0.03125 : (x < 4.0 ? 1.0 - (x - 4.0) * (x - 4.0) * 0.03125 : 1.0))
+//@ spec approxSteepenedSigmoidDef(x real) real = x < -1.0 ? 0.0 : (x < 0.0 ? (x + 1.0) * (x + 1.0) * 0.5 : (x < 1.0 ? 1.0 - (x - 1.0) * (x - 1.0) * 0.5 : 1.0))
+//@ spec inverseAbsSigmoidDef(x real) real = 0.5 + (x / (1.0 + abs(x))) * 0.5
+//@ spec leftShiftedSigmoidDef(x real) real = 1.0 / (1.0 + expF(-x - 2.4621365))
+//@ spec leftShiftedSteepenedSigmoidDef(x real) real = 1.0 / (1.0 + expF(-(4.924273 * x + 2.4621365)))
+//@ spec rightShiftedSteepenedSigmoidDef(x real) real = 1.0 / (1.0 + expF(-(4.924273 * x - 2.4621365)))
+//@ spec tanhDef(x real) real = tanhF(0.9 * x)
+//@ spec bipolarGaussianDef(x real) real = 2.0 * expF(-powF(x * 2.5, 2.0)) - 1.0
+//@ spec gaussianDef(x real) real = expF(-powF(x, 2.0))
+//@ spec clippedLinearDef(x real) real = x < -1.0 ? -1.0 : (x > 1.0 ? 1.0 : x)
+//@ spec signDef(x real) real = (nan(x) || x == 0.0) ? 0.0 : (x < 0.0 ? -1.0 : 1.0)
+//@ spec stepDef(x real) real = x < 0.0 ? 0.0 : 1.0
+
+// ---- facts about exp / tanh used by the monotonicity lemmas (real arithmetic) -------------------
+//@ axiom exp_pos: forall x real :: expF(x) > 0.0
+//@ axiom exp_mono: forall x real, y real :: x <= y ==> expF(x) <= expF(y)
+//@ axiom tanh_mono: forall x real, y real :: x <= y ==> tanhF(x) <= tanhF(y)
+
+// ---- the sigmoid family ---------------------------------------------------------------------
+//@ func var plainSigmoid
+//@   props C18
+//@   fdef
+//@   modifies nothing
+//@   ensures [def] result == plainSigmoidDef(input)
+//@   ensures [range] 0.0 <= result && result <= 1.0
+//@ func var reducedSigmoid
+//@   props C18
+//@   fdef
+//@   modifies nothing
+//@   ensures [def] result == reducedSigmoidDef(input)
+//@   ensures [range] 0.0 <= result && result <= 1.0
+//@ func var steepenedSigmoid
+//@   props C18
+//@   fdef
+//@   modifies nothing
+//@   ensures [def] result == steepenedSigmoidDef(input)
+//@   ensures [range] 0.0 <= result && result <= 1.0
+//@ func var bipolarSigmoid
+//@   props C18
+//@   fdef
+//@   modifies nothing
+//@   ensures [def] result == bipolarSigmoidDef(input)
+//@   ensures [range] -1.0 <= result && result <= 1.0
+//@ func var approximationSigmoid
+//@   props C18
+//@   modifies nothing
+//@   ensures [def] result == approxSigmoidDef(input)
+//@   ensures [range] 0.0 <= result && result <= 1.0
+//@ func var approximationSteepenedSigmoid
+//@   props C18
+//@   modifies nothing
+//@   ensures [def] result == approxSteepenedSigmoidDef(input)
+//@   ensures [range] 0.0 <= result && result <= 1.0
+//@ func var inverseAbsoluteSigmoid
+//@   props C18
+//@   fdef
+//@   modifies nothing
+//@   ensures [def] result == inverseAbsSigmoidDef(input)
+//@   ensures [range] 0.0 <= result && result <= 1.0
+//@ func var leftShiftedSigmoid
+//@   props C18
+//@   fdef
+//@   modifies nothing
+//@   ensures [def] result == leftShiftedSigmoidDef(input)
+//@   ensures [range] 0.0 <= result && result <= 1.0
+//@ func var leftShiftedSteepenedSigmoid
+//@   props C18
+//@   fdef
+//@   modifies nothing
+//@   ensures [def] result == leftShiftedSteepenedSigmoidDef(input)
+//@   ensures [range] 0.0 <= result && result <= 1.0
+//@ func var rightShiftedSteepenedSigmoid
+//@   props C18
+//@   fdef
+//@   modifies nothing
+//@   ensures [def] result == rightShiftedSteepenedSigmoidDef(input)
+//@   ensures [range] 0.0 <= result && result <= 1.0
+
+// ---- the other scalar activators --------------------------------------------------------------
+//@ func var hyperbolicTangent
+//@   props C18
+//@   modifies nothing
+//@   ensures [def] result == tanhDef(input)
+//@   ensures [range] -1.0 <= result && result <= 1.0
+//@ func var bipolarGaussian
+//@   props C18
+//@   modifies nothing
+//@   ensures [def] result == bipolarGaussianDef(input)
+//@   ensures [range] -1.0 <= result && result <= 1.0
+//@ func var gaussian
+//@   props C18
+//@   modifies nothing
+//@   ensures [def] result == gaussianDef(input)
+//@   ensures [range] 0.0 <= result && result <= 1.0
+//@ func var absoluteLinear
+//@   props C18
+//@   modifies nothing
+//@   ensures [def] result == abs(input)
+//@   ensures [range] result >= 0.0
+//@ func var clippedLinear
+//@   props C18
+//@   modifies nothing
+//@   ensures [def] result == clippedLinearDef(input)
+//@   ensures [range] -1.0 <= result && result <= 1.0
+//@ func var linear
+//@   props C18
+//@   modifies nothing
+//@   ensures [def] result == input
+//@ func var nullFunctor
+//@   props C18
+//@   modifies nothing
+//@   ensures [def] result == 0.0
+//@ func var signFunction
+//@   props C18
+//@   modifies nothing
+//@   ensures [def] result == signDef(input)
+//@   ensures [range] result == -1.0 || result == 0.0 || result == 1.0
+//@ func var sineFunction
+//@   props C18
+//@   modifies nothing
+//@   ensures [def] result == sinF(2.0 * input)
+//@   ensures [range] -1.0 <= result && result <= 1.0
+//@ func var stepFunction
+//@   props C18
+//@   modifies nothing
+//@   ensures [def] result == stepDef(input)
+//@   ensures [range] result == 0.0 || result == 1.0
+
+// ---- IEEE-754 variants: exact behaviour at breakpoints, signed zeros and huge magnitudes --------
+//@ func var stepFunction@fp
+//@   props C18
+//@   mode fp
+//@   requires !nan(input)
+//@   ensures [def] result == stepDef(input)
+//@ func var signFunction@fp
+//@   props C18
+//@   mode fp
+//@   ensures [def] result == signDef(input)
+//@ func var clippedLinear@fp
+//@   props C18
+//@   mode fp
+//@   requires !nan(input)
+//@   ensures [def] result == clippedLinearDef(input)
+//@   ensures [range] -1.0 <= result && result <= 1.0
+//@ func var approximationSigmoid@fp
+//@   props C18
+//@   mode fp
+//@   requires !nan(input)
+//@   ensures [range] fin(result) && 0.0 <= result && result <= 1.0
+//@ func var approximationSteepenedSigmoid@fp
+//@   props C18
+//@   mode fp
+//@   requires !nan(input)
+//@   ensures [range] fin(result) && 0.0 <= result && result <= 1.0
+
+//@ func var plainSigmoid@fp
+//@   props C18
+//@   mode fp
+//@   requires -1e300 <= input && input <= 1e300
+//@   ensures [range] fin(result) && 0.0 <= result && result <= 1.0
+//@ func var reducedSigmoid@fp
+//@   props C18
+//@   mode fp
+//@   requires -1e300 <= input && input <= 1e300
+//@   ensures [range] fin(result) && 0.0 <= result && result <= 1.0
+//@ func var steepenedSigmoid@fp
+//@   props C18
+//@   mode fp
+//@   requires -1e300 <= input && input <= 1e300
+//@   ensures [range] fin(result) && 0.0 <= result && result <= 1.0
+//@ func var bipolarSigmoid@fp
+//@   props C18
+//@   mode fp
+//@   requires -1e300 <= input && input <= 1e300
+//@   ensures [range] fin(result) && -1.0 <= result && result <= 1.0
+//@ func var inverseAbsoluteSigmoid@fp
+//@   props C18
+//@   mode fp
+//@   requires -1e300 <= input && input <= 1e300
+//@   ensures [range] fin(result) && 0.0 <= result && result <= 1.0
+//@ func var leftShiftedSigmoid@fp
+//@   props C18
+//@   mode fp
+//@   requires -1e300 <= input && input <= 1e300
+//@   ensures [range] fin(result) && 0.0 <= result && result <= 1.0
+//@ func var leftShiftedSteepenedSigmoid@fp
+//@   props C18
+//@   mode fp
+//@   requires -1e300 <= input && input <= 1e300
+//@   ensures [range] fin(result) && 0.0 <= result && result <= 1.0
+//@ func var rightShiftedSteepenedSigmoid@fp
+//@   props C18
+//@   mode fp
+//@   requires -1e300 <= input && input <= 1e300
+//@   ensures [range] fin(result) && 0.0 <= result && result <= 1.0
+//@ func var hyperbolicTangent@fp
+//@   props C18
+//@   mode fp
+//@   requires -1e300 <= input && input <= 1e300
+//@   ensures [range] fin(result) && -1.0 <= result && result <= 1.0
+//@ func var bipolarGaussian@fp
+//@   props C18
+//@   mode fp
+//@   requires -1e300 <= input && input <= 1e300
+//@   ensures [range] fin(result) && -1.0 <= result && result <= 1.0
+//@ func var gaussian@fp
+//@   props C18
+//@   mode fp
+//@   requires -1e300 <= input && input <= 1e300
+//@   ensures [range] fin(result) && 0.0 <= result && result <= 1.0
+//@ func var sineFunction@fp
+//@   props C18
+//@   mode fp
+//@   requires -1e300 <= input && input <= 1e300
+//@   ensures [range] fin(result) && -1.0 <= result && result <= 1.0
+//@ func var absoluteLinear@fp
+//@   props C18
+//@   mode fp
+//@   requires -1e300 <= input && input <= 1e300
+//@   ensures [range] fin(result) && 0.0 <= result && result == abs(input)
+//@ func var linear@fp
+//@   props C18
+//@   mode fp
+//@   requires -1e300 <= input && input <= 1e300
+//@   ensures [range] fin(result) && result == input
+
+// ---- monotonicity of the definitions ------------------------------------------------------------
+//@ lemma mono_plainSigmoid
+//@   props C18
+//@   uses exp_pos exp_mono
+//@   ensures forall x real, y real :: x <= y ==> plainSigmoidDef(x) <= plainSigmoidDef(y)
+//@ lemma mono_reducedSigmoid
+//@   props C18
+//@   uses exp_pos exp_mono
+//@   ensures forall x real, y real :: x <= y ==> reducedSigmoidDef(x) <= reducedSigmoidDef(y)
+//@ lemma mono_steepenedSigmoid
+//@   props C18
+//@   uses exp_pos exp_mono
+//@   ensures forall x real, y real :: x <= y ==> steepenedSigmoidDef(x) <= steepenedSigmoidDef(y)
+//@ lemma mono_bipolarSigmoid
+//@   props C18
+//@   uses exp_pos exp_mono
+//@   ensures forall x real, y real :: x <= y ==> bipolarSigmoidDef(x) <= bipolarSigmoidDef(y)
+//@ lemma mono_approxSigmoid
+//@   props C18
+//@   ensures forall x real, y real :: x <= y ==> approxSigmoidDef(x) <= approxSigmoidDef(y)
+//@ lemma mono_approxSteepenedSigmoid
+//@   props C18
+//@   ensures forall x real, y real :: x <= y ==> approxSteepenedSigmoidDef(x) <= approxSteepenedSigmoidDef(y)
+//@ lemma mono_inverseAbsSigmoid
+//@   props C18
+//@   ensures forall x real, y real :: x <= y ==> inverseAbsSigmoidDef(x) <= inverseAbsSigmoidDef(y)
+//@ lemma mono_leftShiftedSigmoid
+//@   props C18
+//@   uses exp_pos exp_mono
+//@   ensures forall x real, y real :: x <= y ==> leftShiftedSigmoidDef(x) <= leftShiftedSigmoidDef(y)
+//@ lemma mono_leftShiftedSteepenedSigmoid
+//@   props C18
+//@   uses exp_pos exp_mono
+//@   ensures forall x real, y real :: x <= y ==> leftShiftedSteepenedSigmoidDef(x) <= leftShiftedSteepenedSigmoidDef(y)
+//@ lemma mono_rightShiftedSteepenedSigmoid
+//@   props C18
+//@   uses exp_pos exp_mono
+//@   ensures forall x real, y real :: x <= y ==> rightShiftedSteepenedSigmoidDef(x) <= rightShiftedSteepenedSigmoidDef(y)
+//@ lemma mono_tanh
+//@   props C18
+//@   uses tanh_mono
+//@   ensures forall x real, y real :: x <= y ==> tanhDef(x) <= tanhDef(y)
+//@ lemma mono_clippedLinear
+//@   props C18
+//@   ensures forall x real, y real :: x <= y ==> clippedLinearDef(x) <= clippedLinearDef(y)
+//@ lemma mono_step
+//@   props C18
+//@   ensures forall x real, y real :: x <= y ==> stepDef(x) <= stepDef(y)
+//@ lemma mono_step@fp
+//@   props C18
+//@   mode fp
+//@   ensures forall x real, y real :: !nan(x) && !nan(y) && x <= y ==> stepDef(x) <= stepDef(y)
+
+// ---- module activators ----------------------------------------------------------------------
+// prodTo(a, o, k) = a[o] * ... * a[o+k-1], the textbook product (real arithmetic).
+//@ ufunc prodTo((Array Int Float), Int, Int) Float
+//@ smtdef real: (define-fun-rec prodTo ((a (Array Int Real)) (o Int) (k Int)) Real (ite (<= k 0) 1.0 (* (prodTo a o (- k 1)) (select a (+ o (- k 1))))))
+//@ func var multiplyModule
+//@   props C18
+//@   modifies nothing
+//@   ensures [len] len(result) == 1
+//@   ensures [def] result[0] == prodTo(arrOf(inputs), off(inputs), len(inputs))
+//@   loop 1:
+//@     invariant -1 <= #idx && #idx < len(inputs)
+//@     invariant ret == prodTo(arrOf(inputs), off(inputs), #idx + 1)
+//@ func var maxModule
+//@   props C18
+//@   mode fp
+//@   requires forall k :: 0 <= k && k < len(inputs) ==> !nan(inputs[k])
+//@   modifies nothing
+//@   ensures [len] len(result) == 1
+//@   ensures [upper] forall k :: 0 <= k && k < len(inputs) ==> result[0] >= inputs[k]
+//@   ensures [attained] len(inputs) > 0 ==> exists k :: 0 <= k && k < len(inputs) && result[0] == inputs[k]
+//@   loop 1:
+//@     invariant -1 <= #idx && #idx < len(inputs) && !nan(maxVal)
+//@     invariant forall k :: 0 <= k && k <= #idx ==> maxVal >= inputs[k]
+//@     invariant (#idx == -1 && forall j :: 0 <= j && j < len(inputs) ==> maxVal <= inputs[j]) || exists k :: 0 <= k && k <= #idx && maxVal == inputs[k]
+//@ func var minModule
+//@   props C18
+//@   mode fp
+//@   requires forall k :: 0 <= k && k < len(inputs) ==> fin(inputs[k])
+//@   modifies nothing
+//@   ensures [len] len(result) == 1
+//@   ensures [lower] forall k :: 0 <= k && k < len(inputs) ==> result[0] <= inputs[k]
+//@   ensures [attained] len(inputs) > 0 ==> exists k :: 0 <= k && k < len(inputs) && result[0] == inputs[k]
+//@   loop 1:
+//@     invariant -1 <= #idx && #idx < len(inputs) && !nan(minVal)
+//@     invariant forall k :: 0 <= k && k <= #idx ==> minVal <= inputs[k]
+//@     invariant (#idx == -1 && forall j :: 0 <= j && j < len(inputs) ==> minVal >= inputs[j]) || exists k :: 0 <= k && k <= #idx && minVal == inputs[k]
+
+// ---- the registry: names and type codes map one-to-one in both directions ------------------------
+//@ func NewNodeActivatorsFactory
+//@   props C18
+//@   ensures [nonnil] result != nil
+//@   ensures [codes] forall t :: mapHas(result.forward, t) <==> (1 <= t && t <= 23)
+//@   ensures [fwdinv] forall t :: mapHas(result.forward, t) ==> mapHas(result.inverse, result.forward[t]) && result.inverse[result.forward[t]] == t
+//@   ensures [invfwd] forall n string :: mapHas(result.inverse, n) ==> mapHas(result.forward, result.inverse[n]) && result.forward[result.inverse[n]] == n
+//@   ensures [scalar] forall t :: mapHas(result.activators, t) <==> (1 <= t && t <= 20)
+//@   ensures [module] forall t :: mapHas(result.moduleActivators, t) <==> (21 <= t && t <= 23)
+//@ func (*NodeActivatorsFactory).ActivationNameFromType
+//@   props C18
+//@   requires a != nil
+//@   modifies nothing
+//@   ensures [known] mapHas(a.forward, aType) ==> result1 == nil && result0 == a.forward[aType]
+//@   ensures [unknown] !mapHas(a.forward, aType) ==> result1 != nil
+//@ func (*NodeActivatorsFactory).ActivationTypeFromName
+//@   props C18
+//@   requires a != nil
+//@   modifies nothing
+//@   ensures [known] mapHas(a.inverse, name) ==> result1 == nil && result0 == a.inverse[name]
+//@   ensures [unknown] !mapHas(a.inverse, name) ==> result1 != nil
+//@ func (*NodeActivatorsFactory).ActivateByType
+//@   props C18
+//@   requires a != nil
+//@   ensures [known] mapHas(a.activators, aType) ==> result1 == nil
+//@   ensures [unknown] !mapHas(a.activators, aType) ==> result1 != nil
+//@ func (*NodeActivatorsFactory).ActivateModuleByType
+//@   props C18
+//@   requires a != nil
+//@   ensures [known] mapHas(a.moduleActivators, aType) ==> result1 == nil
+//@   ensures [unknown] !mapHas(a.moduleActivators, aType) ==> result1 != nil && result0 == nil
